@@ -80,4 +80,134 @@ Proof.
     destruct (dict_get subops k); reflexivity.
 Qed.
 
+(* ------------------------------------------------------------------ the project step *)
+Definition group_count (gb : list string) (A : table) : nat :=
+  List.length (match gb with [] => [[]] | _ => distinct_keys (map (key_of (cols A) gb) (rows A)) end).
+
+Lemma get_map_assoc {X} (g : string * X -> val) (ops : list (string * X)) ke :
+  NoDup (map fst ops) -> In ke ops -> get (map fst ops) (map g ops) (fst ke) = g ke.
+Proof.
+  intros N I. unfold get. induction ops as [|a t IH]; [destruct I|]. simpl. inversion N as [|? ? Na Nt]; subst.
+  destruct (eq_dec (fst ke) (fst a)) as [E|NE].
+  - simpl. destruct I as [->|I]; [reflexivity|]. exfalso. apply Na. rewrite <- E. apply in_map, I.
+  - destruct I as [->|I]; [congruence|]. specialize (IH Nt I). destruct (index_of (fst ke) (map fst t)); simpl; exact IH.
+Qed.
+
+Lemma all_agg_has_agg (tms : terms) K :
+  K <> [] -> (forall k, In k K -> is_agg_term (term_of tms k) = true) ->
+  existsb (fun kt => is_agg_term (snd kt)) (map (item_of_terms tms) K) = true.
+Proof. destruct K as [|k0 K']; [congruence|]. intros _ H. simpl. rewrite (H k0 (or_introl eq_refl)). reflexivity. Qed.
+Lemma no_win_items (tms : terms) K :
+  (forall k, In k K -> is_win_term (term_of tms k) = false) ->
+  existsb (fun kt => is_win_term (snd kt)) (map (item_of_terms tms) K) = false.
+Proof. intros H. apply existsb_false_map. intros k Ik. exact (H k Ik). Qed.
+
+(* an aggregating SELECT, explicitly: GROUP BY gb, or no GROUP BY and only aggregates *)
+Lemma sql_select_agg tms K gb A :
+  K <> [] -> (forall k, In k K -> is_win_term (term_of tms k) = false) ->
+  (gb = [] -> forall k, In k K -> is_agg_term (term_of tms k) = true) ->
+  sql_select fl true (Some tms) (Some K) (match gb with [] => SfxNone | _ => SfxGroup gb end) A
+  = Some (mktable K (agg_rows fl A gb (map (item_of_terms tms) K))).
+Proof.
+  intros NE NW AG. unfold sql_select. rewrite select_keys_some by exact NE. rewrite (no_win_items tms K NW).
+  destruct gb as [|g0 gb']; [|reflexivity]. rewrite (all_agg_has_agg tms K NE (AG eq_refl)). reflexivity.
+Qed.
+
+Lemma NoDup_app_split (a b : list string) : NoDup (a ++ b) -> NoDup b /\ (forall x, In x a -> ~ In x b).
+Proof.
+  induction a as [|x t IH]; simpl; intros N; [split; [exact N|intros y []]|]. inversion N as [|? ? Nx Nt]; subst.
+  destruct (IH Nt) as [A B]. split; [exact A|]. intros y [<-|Iy]; [intros I; apply Nx; apply in_app_iff; right; exact I|apply B, Iy].
+Qed.
+
+Lemma node_project s ops gb sub u u1 S nm :
+  builder_ok (OProject s ops gb) = true -> negb (is_nil gb && is_nil ops) = true ->
+  sem_gen fl s e = Some S -> NoDup u -> incl u u1 -> incl u1 (column_names (OProject s ops gb)) ->
+  (gb = [] -> sub_ops u1 ops <> []) ->
+  let p := OProject s ops gb in
+  let us := py_set (cfs1 p u1) in
+  Delivers fl e sub us S ->
+  Delivers fl e (TUnary nm (norm (project_terms (sub_ops u1 ops) gb)) sub (mk_tci (Some us) false None)
+                        (match gb with [] => SfxNone | _ => SfxGroup gb end) false None) u (sem_project fl ops gb S).
+Proof.
+  intros BO NE0 ES Nu Iuu1 Iu1 Hsub p us D.
+  destruct (bok_project _ _ _ BO) as [BOs Nall].
+  assert (incl (gb ++ ops_cols ops) (column_names s)) as Icols.
+  { simpl in BO. rewrite !andb_true_iff in BO. destruct BO as [[_ B] _]. exact (proj1 (subset_spec _ _) B). }
+  pose proof (sem_cols fl s e S ES) as EC.
+  destruct (NoDup_app_split _ _ Nall) as [Nk Dj].
+  set (subops := sub_ops u1 ops) in *.
+  assert (NoDup (map fst subops)) as Nsub by (apply NoDup_map_fst_filter, Nk).
+  assert (forall g, In g gb -> ~ In g (map fst subops)) as Djs.
+  { intros g Ig I. apply (Dj g Ig). apply in_map_iff in I. destruct I as [ke [E I]]. apply filter_In in I. apply in_map_iff. exists ke. tauto. }
+  assert (forall c, In c us <-> In c gb \/ In c (ops_cols subops)) as Hus.
+  { intros c. unfold us, cfs1, p. simpl. rewrite In_py_set, in_app_iff. reflexivity. }
+  assert (NoDup us) as Nus by apply NoDup_py_set.
+  assert (incl us (cols S)) as Ius.
+  { rewrite EC. intros c Hc. apply Hus in Hc. apply Icols. apply in_app_iff. destruct Hc as [Hc|Hc]; [left; exact Hc|right].
+    unfold ops_cols in *. apply in_flat_map in Hc. destruct Hc as [ke [I1 I2]]. apply in_flat_map. exists ke. split; [|exact I2]. apply filter_In in I1. tauto. }
+  assert (sem_gen fl p e = Some (sem_project fl ops gb S)) as ET by (simpl; rewrite ES; reflexivity).
+  assert (forall K, incl K u1 -> sel K (sem_project fl ops gb S) = sel K (sem_project fl ops gb (sel us S))) as Hpr.
+  { intros K IK.
+    assert (forall c, In c (cfs1 p u1) -> In c us) as H1 by (intros c Hc; apply In_py_set; exact Hc).
+    destruct (prune_unary fl e p s us u1 K S _ BO eq_refl Iu1 IK ES ET H1 Ius) as [T1 [E1 E2]].
+    simpl in E1. rewrite ES in E1. simpl in E1. injection E1 as <-. exact E2. }
+  set (tms := project_terms subops gb).
+  assert (forall k, term_of tms k = match dict_get subops k with Some x => TmAgg x | None => TmPass end) as Hterm
+      by (intros k; apply project_terms_term; assumption).
+  assert (forall k, is_win_term (term_of tms k) = false) as NW by (intros k; rewrite Hterm; destruct (dict_get subops k); reflexivity).
+  assert (forall k, In k (map fst tms) <-> In k (map fst subops) \/ In k gb) as Hkeys by (intros k; apply project_terms_keys).
+  assert (gb = [] -> forall K, incl K (map fst tms) -> forall k, In k K -> is_agg_term (term_of tms k) = true) as AG.
+  { intros -> K IK k Ik. rewrite Hterm. specialize (IK k Ik). apply Hkeys in IK. destruct IK as [IK|[]].
+    destruct (dict_get subops k) eqn:G; [reflexivity|]. apply dict_get_None in G. contradiction. }
+  assert (tms <> []) as NT.
+  { intros X. destruct gb as [|g0 gb'].
+    - specialize (Hsub eq_refl). destruct subops as [|so0 sor] eqn:Es; [congruence|].
+      assert (In (fst so0) (map fst tms)) as I by (apply Hkeys; left; left; reflexivity). rewrite X in I. destruct I.
+    - assert (In g0 (map fst tms)) as I by (apply Hkeys; right; left; reflexivity). rewrite X in I. destruct I. }
+  assert (norm tms = Some tms) as ENorm by (destruct tms; [congruence|reflexivity]). rewrite ENorm.
+  assert (incl u (map fst tms)) as IuK.
+  { intros k Ik. apply Hkeys. specialize (Iu1 k (Iuu1 k Ik)). simpl in Iu1. apply in_app_iff in Iu1. destruct Iu1 as [X|X]; [right; exact X|left].
+    apply in_map_iff in X. destruct X as [ke [E I]]. apply in_map_iff. exists ke. split; [exact E|]. apply in_sub_ops; [exact I|rewrite E; apply Iuu1, Ik]. }
+  (* one output cell *)
+  assert (forall A key grp k, List.length key = List.length gb -> In k (map fst tms) ->
+            agg_item fl (cols A) gb key grp k (term_of tms k)
+            = get (gb ++ map fst ops) (key ++ map (fun ke => agg_value fl (cols A) grp (snd ke)) ops) k) as Hcell.
+  { intros A key grp k L Ik. rewrite Hterm. apply Hkeys in Ik. destruct (dict_get subops k) as [x|] eqn:G.
+    - apply dict_get_In in G. assert (In (k, x) ops) as Io by (apply filter_In in G; tauto).
+      assert (~ In k gb) as Ng by (intros Ig; apply (Dj k Ig); apply in_map_iff; exists (k, x); tauto).
+      rewrite (get_app_r gb (map fst ops) key _ k L Ng).
+      pose proof (get_map_assoc (fun ke => agg_value fl (cols A) grp (snd ke)) ops (k, x) Nk Io) as GM. cbn [fst snd] in GM. rewrite GM. reflexivity.
+    - destruct Ik as [Ik|Ik]; [apply dict_get_None in G; contradiction|].
+      rewrite (get_app_l gb (map fst ops) key _ k L Ik). destruct (index_of_In k gb Ik) as [i Ei]. unfold agg_item, get. rewrite Ei. reflexivity. }
+  assert (forall A key, In key (match gb with [] => [[]] | _ => distinct_keys (map (key_of (cols A) gb) (rows A)) end) -> List.length key = List.length gb) as LK.
+  { intros A key I. destruct gb as [|g0 gb']; [destruct I as [<-|[]]; reflexivity|].
+    apply distinct_keys_sound in I. apply in_map_iff in I. destruct I as [r0 [<- _]]. apply key_of_length. }
+  assert (forall K A, K <> [] -> incl K (map fst tms) ->
+            sql_select fl true (Some tms) (Some K) (match gb with [] => SfxNone | _ => SfxGroup gb end) A
+            = Some (sel K (sem_project fl ops gb A))) as Hsel.
+  { intros K A NK IK. rewrite (sql_select_agg tms K gb A NK (fun k _ => NW k) (fun E => AG E K IK)). f_equal.
+    unfold sem_select_cols, sem_project, agg_rows. cbn [cols rows]. f_equal. rewrite map_map. apply map_ext_in. intros key Ikey.
+    rewrite map_map. apply map_ext_in. intros k Ik. unfold item_of_terms. cbn [fst snd].
+    apply Hcell; [apply (LK A key Ikey)|apply IK, Ik]. }
+  apply (fresh_unary_cnt (group_count gb) sub us S nm tms _ false None u (sem_project fl ops gb S)); try assumption.
+  - apply project_terms_nodup, Nsub.
+  - intros k Ik. simpl. apply in_app_iff. specialize (Iu1 k (Iuu1 k Ik)). simpl in Iu1. apply in_app_iff in Iu1. exact Iu1.
+  - intros K NK NDK IK. refine (eq_trans (Hsel K (sel us S) NK (fun k Ik => IuK k (IK k Ik))) _). f_equal. symmetry. apply Hpr. intros k Ik. apply Iuu1, IK, Ik.
+  - intros k Ik c Hc. apply Hus. rewrite Hterm in Hc. specialize (IuK k Ik). apply Hkeys in IuK.
+    destruct (dict_get subops k) as [x|] eqn:G; simpl in Hc.
+    + right. apply dict_get_In in G. unfold ops_cols. apply in_flat_map. exists (k, x). split; [exact G|exact Hc].
+    + destruct Hc as [<-|[]]. left. destruct IuK as [X|X]; [apply dict_get_None in G; contradiction|exact X].
+  - destruct gb; [intros x []|]. simpl. intros c Hc. apply Hus. left. exact Hc.
+  - intros K A NK IK. exists (sel K (sem_project fl ops gb A)). split; [exact (Hsel K A NK IK)|]. unfold sem_select_cols, sem_project, group_count. cbn [rows]. rewrite !map_length. reflexivity.
+  - intros A B R. unfold group_count. destruct gb as [|g0 gb']; [reflexivity|]. f_equal. f_equal.
+    eapply F2_map_eq; [exact R|]. intros r r' Rr. apply key_of_local. intros x Hx. apply Rr. apply Hus. left. exact Hx.
+  - pose proof (f_equal (fun t => List.length (rows t)) (Hpr [] (fun x (H : In x []) => match H with end))) as EL.
+    unfold sem_select_cols, sem_project in EL. cbn [rows] in EL. rewrite !map_length in EL.
+    unfold group_count, sem_project. cbn [rows]. rewrite map_length. symmetry. exact EL.
+  - intros K C A R NC ICK IK E1.
+    assert (K <> []) as NK by (destruct C as [|c0 C']; [congruence|]; intros X; specialize (ICK c0 (or_introl eq_refl)); rewrite X in ICK; destruct ICK).
+    pose proof (eq_trans (eq_sym (Hsel K A NK IK)) E1) as X. injection X as <-.
+    refine (eq_trans (Hsel C A NC (fun k Ik => IK k (ICK k Ik))) _). f_equal. symmetry. apply sel_sel, ICK.
+Qed.
+
 End Agg.
